@@ -16,9 +16,8 @@ Proof. destruct n; reflexivity. Qed.
 Lemma nth_set_nth_other {A} (d : A) n m v l : m <> n -> nth m (set_nth d n v l) d = nth m l d.
 Proof.
   revert m l. induction n as [|n IH]; intros [|m] [|x tl] H; cbn [set_nth nth]; auto; try congruence.
-  - now rewrite !nth_nil.
-  - rewrite IH by congruence. now rewrite !nth_nil.
-  - apply IH. congruence.
+  all: rewrite ?IH by congruence; rewrite ?nth_nil; auto.
+  destruct m; reflexivity.
 Qed.
 
 Lemma nth_set_nth {A} (d : A) n m v l : nth m (set_nth d n v l) d = if Nat.eqb m n then v else nth m l d.
